@@ -1774,3 +1774,32 @@ async fn d43_get_at_with_equal_timestamps_returns_the_overwritten_version() {
 		}
 	}
 }
+
+// D44: a transaction that began BEFORE a restore, with a start sequence above the checkpoint's, is not refused: the
+// restore sets kept_since = restored max_seq, its start_seq is not below that, and the post-restore commits carry
+// (rewound) sequence numbers below its start_seq, so the conflict check sees nothing.
+#[tokio::test(flavor = "multi_thread")]
+async fn d44_pre_restore_transaction_commits_over_a_post_restore_write() {
+	let d = td();
+	let cp = td();
+	let opts = mk_opts(d.path().to_path_buf(), |_| {});
+	let tree = Tree::new(Arc::clone(&opts)).unwrap();
+	put(&tree, b"k", b"v0").await;
+	tree.create_checkpoint(cp.path()).unwrap();
+	for i in 0..6u8 {
+		put(&tree, &[b'x', i], b"later").await;
+	}
+	// begins on the timeline that is about to be discarded
+	let mut stale = tree.begin().unwrap();
+	assert_eq!(stale.get(b"k").unwrap().as_deref(), Some(&b"v0"[..]));
+	stale.set(b"k", b"from-the-discarded-timeline").unwrap();
+
+	tree.restore_from_checkpoint(cp.path()).unwrap();
+	put(&tree, b"k", b"new").await; // committed AFTER `stale` began, same key
+
+	let r = stale.commit().await;
+	let now = tree.begin().unwrap().get(b"k").unwrap().map(|v| String::from_utf8_lossy(&v).to_string());
+	println!("D44 stale commit -> {:?}; k = {:?}", r.as_ref().map_err(|e| e.to_string()), now);
+	assert!(r.is_err(), "D44: a transaction begun before the restore committed over a key written after it began (k = {now:?})");
+	assert_eq!(now.as_deref(), Some("new"));
+}
